@@ -175,6 +175,15 @@ func (p *Path) callSSA(th *thread, caller *frame, callpos token.Pos, fn *ssa.Fun
 	if fn.TypeParams().Len() > 0 && len(fn.TypeArgs()) == 0 {
 		unsup("uninstantiated generic %s", name)
 	}
+	if p.callBounds != nil {
+		if b, ok := p.callBounds[fn.Name()]; ok {
+			p.callCounts[fn.Name()]++
+			if p.callCounts[fn.Name()] > b {
+				p.note(fmt.Sprintf("bound: at most %d calls of %s per path; deeper paths are cut", b, fn.Name()))
+				p.abort("bounded")
+			}
+		}
+	}
 	p.depth++
 	if p.depth > p.ex.maxDepth {
 		p.inconc = append(p.inconc, "call depth bound exceeded in "+name)
@@ -460,7 +469,11 @@ func (fr *frame) visit(instr ssa.Instruction) continuation {
 		lt := fr.get(instr.Len).(*Term)
 		ct := fr.get(instr.Cap).(*Term)
 		p.obligation(Cmp(OSle, BV(64, 0), lt), "makeslice", "makeslice@"+fr.fn.String(), "negative make size", fr, instr.Pos())
+		lt = p.sizeClass(lt)
 		n := int64(p.concretize(lt, "make len"))
+		if ct != lt {
+			ct = p.sizeClass(ct)
+		}
 		c := int64(p.concretize(ct, "make cap"))
 		if c < n {
 			c = n
@@ -707,3 +720,23 @@ func (p *Path) unwindBound() int {
 }
 
 type engineErr struct{ msg string }
+
+// sizeClass: a symbolic allocation size is split into the exact sizes 0..4 and one representative
+// (4096) for everything larger; recorded as a stated bound.
+func (p *Path) sizeClass(t *Term) *Term {
+	if t.IsConst() {
+		return t
+	}
+	for v := uint64(0); v <= 4; v++ {
+		if p.branch(Cmp(OEq, t, BV(t.W, v))) {
+			return BV(t.W, v)
+		}
+	}
+	rep := BV(t.W, 4096)
+	if ok, _ := p.feasible(Cmp(OEq, t, rep)); ok {
+		p.assume(Cmp(OEq, t, rep))
+		p.note("bound: symbolic allocation sizes are explored as 0,1,2,3,4 and one representative (4096) for every larger size")
+		return rep
+	}
+	return t
+}
